@@ -12,8 +12,9 @@ with an independent reading of the manual for the core options.  H1 -> H3 compos
 same forest is (a) recorded by the real libmcount with the option and (b) recorded
 unfiltered, written as a data directory and replayed with the option; both are also
 compared with their Lean models.
-Findings: F-C07-NOLIBCALL (fixed in /repo; a tree that behaves like the pre-fix model is
-reported again), S4 (-t boundary `>` vs `>=`; reported as KNOWN-FINDING while listed open)."""
+Findings: F-C07-NOLIBCALL and S4 (-t boundary `>` vs `>=`) are fixed in /repo; a tree that
+behaves like their pre-fix models is reported again.  F-C07-TRACEOFF-FLUSH (record side, open)
+is reported as KNOWN-FINDING when its shape is observed."""
 import json
 import os
 import re
@@ -724,9 +725,9 @@ def case_json(case):
 
 
 # ---------------------------------------------------------------- H1 -> H3 ------------
-def rec_opts(rng, durs, boundary_ok):
-    """option sets that exist at both times: -F -N -D -t. Unless finding S4 is listed as open, -t is never
-    equal to a call duration (record time keeps `> t`, replay time `>= t`)"""
+def rec_opts(rng, durs, boundary_ok=True):
+    """option sets that exist at both times: -F -N -D -t; -t is often equal to a call duration (finding S4,
+    repaired: both times keep a call that ran at least the threshold)"""
     o = mcgen.Opts()
     fns = list(range(NFN))
     if rng.random() < 0.5:
@@ -737,8 +738,9 @@ def rec_opts(rng, durs, boundary_ok):
         o.D = rng.randint(1, 4)
     if rng.random() < 0.5:
         cand = [t for t in (1, 2, 3, 4, 5, 7, 10, 12, 20, 25, 50) if boundary_ok or t not in durs]
+        hit = [t for t in cand if t in durs]
         if cand:
-            o.t = rng.choice(cand)
+            o.t = rng.choice(hit) if (hit and rng.random() < 0.5) else rng.choice(cand)
     o.patt = "regex"
     return o
 
@@ -758,15 +760,33 @@ def stream_recs(tokens):
     return out
 
 
-def record_vs_replay(ctx, uft, root, nforest, boundary_ok):
+ONOFF_FNS = [0, 1, 2, 3, 4, None, None, None, None, 5, 6, None, None, 1, 2, 3, 4, None, None, None, None, None]
+
+
+def record_vs_replay(ctx, uft, root, nforest, boundary_ok=True):
     exe, log = h1.build(ctx, "normal")
     if not exe:
         return None, log
     sizes = mcheck.sym_sizes(exe)
     rng = ctx.rng
     cases = []
+    # directed: f0{ f1{ f2{ f3{ f4 }}} f5{ f6 } f1{ f2{ f3{ f4 }}} } with -D n -T f3@trace_off -T f5@trace_on
+    # (n = 3: the trace_off function is itself beyond the depth: finding F-C07-TRACEOFF-FLUSH; n = 4: it is not)
+    dops, now = [], 1000
+    for fn in ONOFF_FNS:
+        now += 10
+        dops += [("T", now), (("E", fn) if fn is not None else ("X",))]
+    for kind in ("pg", "cyg"):
+        script = mcgen.script_lines(dops, lambda fn, k, kind=kind: kind)
+        fid = "onoff-" + kind
+        cases.append({"opts": mcgen.Opts(), "script": script, "kind": kind, "forest": fid, "role": "plain", "durs": set()})
+        for dn in (3, 4):
+            o = mcgen.Opts()
+            o.D = dn
+            o.T = [(3, [("trace_off", None)]), (5, [("trace_on", None)])]
+            cases.append({"opts": o, "script": script, "kind": kind, "forest": fid, "role": "traceoff", "durs": set()})
     for i in range(nforest):
-        ops = mcgen.rand_forest(rng, max_calls=rng.choice([8, 20, 40]), max_depth=rng.choice([3, 5, 7]), zero_dur=0.0)
+        ops = mcgen.rand_forest(rng, max_calls=rng.choice([8, 20, 40]), max_depth=rng.choice([3, 5, 7]), zero_dur=0.1)
         durs = set()
         st, now = [], 0
         for op in ops:
@@ -808,6 +828,19 @@ def record_vs_replay(ctx, uft, root, nforest, boundary_ok):
             if o.T:
                 cases.append({"opts": o, "script": script, "kind": kind, "forest": i, "role": "traceoff", "durs": durs})
     mcheck.run_cases(ctx, exe, sizes, cases)
+    # where the hooks do not behave like the current hook model: do they behave like the model of the code before
+    # the repair of S4 (exit hooks keep only calls that ran strictly longer than the threshold)?
+    odd = [c for c in cases if c["impl_cmp"] != c["model_cmp"]]
+    if odd:
+        ml, spans = [], []
+        for c in odd:
+            pre = ["RESET"] + mcgen.to_model(c["opts"], sizes, False)
+            pre[1] += " s4fixed=0"
+            spans.append((len(ml) + len(pre), len(c["script"])))
+            ml += pre + c["script"]
+        mo = C.run_model("Mcount", ml)
+        for c, (a, n) in zip(odd, spans):
+            c["matches_prefix_S4_hook_model"] = [mcheck.strip_obs(C.norm(x), False) for x in mo[a:a + n]] == c["impl_cmp"]
     # libmcount pre-allocates a second shmem buffer per thread that lib/h1.py does not know about: unlink it too
     for c in cases:
         for typ, payload in c["raw"]["msgs"]:
@@ -1219,8 +1252,8 @@ def run(ctx):
                 "theorem": "c07_commands_agree (needs --no-libcall off)"})
     # ---- record time vs replay time
     rvr_n = 40 if ctx.tier == "quick" else 1500
-    s4 = [f for f in C.known_findings("C07") if f["id"] == "S4"]
-    jobs, log = record_vs_replay(ctx, uft, root, rvr_n, boundary_ok=bool(s4))
+    s4 = [f for f in C.known_findings("C07") if f["id"] == "S4"]      # open only if the repair was taken out again
+    jobs, log = record_vs_replay(ctx, uft, root, rvr_n)
     rvr = {"pairs": 0, "equal": 0, "boundary_cases": 0, "boundary_differs": 0, "filtered_something": 0,
            "trace_on_off_cases": 0, "trace_on_off_differs": 0}
     tof = [f for f in C.known_findings("C07") if f["id"] == "F-C07-TRACEOFF-FLUSH"]
@@ -1251,20 +1284,37 @@ def run(ctx):
                 flush_shape = all(any(x == y for y in it) for x in c["recorded"]) and \
                     all(t.startswith("E") for t in rep if t not in c["recorded"])
                 rvr["trace_on_off_lost_entries_shape"] = rvr.get("trace_on_off_lost_entries_shape", 0) + flush_shape
-                if tof and flush_shape:
-                    C.known(ctx, tof[0], "F-C07-TRACEOFF-FLUSH record -T f@trace_off loses the ENTRY records of the open "
-                                         "callers when f itself is filtered out; replay with the same options shows them")
+                if flush_shape:
+                    if tof:
+                        C.known(ctx, tof[0], "F-C07-TRACEOFF-FLUSH record -T f@trace_off loses the ENTRY records of the open "
+                                             "callers when f itself is filtered out; replay with the same options shows them")
+                        continue
+                    # not (or no longer) listed as open: a plain failure of "same call tree as recording with that option"
+                    monitor_fail += 1
+                    if replays < 5:
+                        replays += 1
+                        C.violation(ctx, "rvr%d" % ji, {
+                            "kind": "property-violated-on-implementation", "finding": "F-C07-TRACEOFF-FLUSH",
+                            "what": "record with a trace_off trigger loses the ENTRY records of the open callers",
+                            "env": mcgen.to_env(c["opts"]), "hook": c["kind"], "script": c["script"][:300],
+                            "replay_args": cli_args(to_ropts(c["opts"])), "recorded": c["recorded"][:30], "replayed": rep[:30]})
+                    continue
+                # any other difference under trace_on/trace_off: the two times implement the switch differently by
+                # construction (see ctx.assumptions); counted, first example kept in the evidence
+                rvr["trace_on_off_other_differences"] = rvr.get("trace_on_off_other_differences", 0) + 1
+                rvr.setdefault("trace_on_off_other_example", {"record_env": mcgen.to_env(c["opts"]),
+                                                              "recorded": c["recorded"][:14], "replayed": rep[:14]})
                 continue
-            if c["role"] == "boundary" and rc == 0 and models_ok:
-                # shape of S4: a call ran exactly the threshold; both sides do what their models say
+            s4_shape = (c["role"] == "boundary" and rc == 0 and rep == c["replay_model"] and
+                        c.get("matches_prefix_S4_hook_model", False))
+            if s4_shape:
+                # a call ran exactly the threshold, replay keeps it, the hooks behave like the pre-fix model (`>`)
                 rvr["boundary_differs"] += 1
                 if s4:
                     C.known(ctx, s4[0], "S4 -t boundary: a call that runs exactly the threshold is dropped by record -t (>) and "
                                         "kept by replay -t (>=)")
                     continue
-                if not boundary_ok:
-                    continue        # dedicated probe only; counted in coverage, see assumptions
-            if not models_ok:
+            if not models_ok and not s4_shape:
                 disagreements += 1
             else:
                 monitor_fail += 1
@@ -1272,14 +1322,16 @@ def run(ctx):
                 replays += 1
                 k = next((i for i, (a, b) in enumerate(zip(rep, c["recorded"])) if a != b), min(len(rep), len(c["recorded"])))
                 C.violation(ctx, "rvr%d" % ji, {
-                    "kind": "property-violated-on-implementation" if models_ok else "model-code-disagreement",
+                    "kind": "property-violated-on-implementation" if (models_ok or s4_shape) else "model-code-disagreement",
+                    "finding": "S4 (repaired in /repo): the implementation matches the pre-fix hook model" if s4_shape else None,
                     "what": "recording with the option and replaying the unfiltered recording with the option give different call trees",
                     "env": mcgen.to_env(c["opts"]), "hook": c["kind"], "script": c["script"][:300],
                     "replay_args": cli_args(to_ropts(c["opts"])), "rc": rc, "stderr": err[-300:],
                     "first_difference": {"index": k, "recorded": c["recorded"][k:k + 3], "replayed": rep[k:k + 3]},
                     "hook_model_agrees_with_libmcount": c["impl_cmp"] == c["model_cmp"],
                     "fstack_model_agrees_with_replay": rep == c["replay_model"],
-                    "theorem": "c07_record_eq_replay / c07_record_eq_replay_partial"}, no_failing_input=not models_ok)
+                    "theorem": "c07_record_eq_replay (witness of the pre-fix code: c07_time_boundary_witness)"},
+                            no_failing_input=not (models_ok or s4_shape))
     if proof_broken:
         C.violation(ctx, "proof", {"kind": "proof-obligation-broken", "problems": problems,
                                    "searched": "%d command runs; monitor failures %d" % (evaluations, monitor_fail)},
@@ -1304,15 +1356,23 @@ def run(ctx):
         "calls or are cut by -r (their 'remaining functions' accounting ignores the filters: C08/C15 territory)",
         "raw `uftrace dump` reads the task files without the look-ahead, so -t / time= / -C do not apply to it (modelled as coded, "
         "theorem c07_dumpraw_agrees has the hypothesis); it is compared with the other commands only without those options",
-        "record-vs-replay with trace_on/trace_off triggers is outside the proved class (c07_record_eq_replay: -F/-N/-D/-t) and the "
-        "two times differ on the real code in several ways (ENTRY records of open callers lost when the trace_off function is "
-        "itself filtered out: proposed_fixes/C07-TRACEOFF-FLUSH.diff; the -D budget is used up by calls entered while tracing is "
-        "off at record time but not at replay time; a -N function's trace_off trigger fires at record time only). Both sides match "
-        "their Lean models in these cases; they are counted in coverage.record_vs_replay.trace_on_off_differs, not failed",
-        "record-vs-replay, -t boundary (finding S4, theorem c07_time_boundary_witness: record time keeps '> t', replay '>= t'): "
-        "while S4 is listed as open in known_findings.json, -t values equal to a call's duration are generated and a difference of "
-        "exactly that shape (both sides match their models) is reported as KNOWN-FINDING; otherwise such values are kept out of the "
-        "random comparison and only probed (coverage.record_vs_replay.boundary_differs)",
+        "record-vs-replay with trace_on/trace_off triggers is outside the proved class (c07_record_eq_replay: -F/-N/-D/-t). Directed "
+        "and random cases are run; both sides always have to match their Lean models. Differences of the shape 'replay shows "
+        "ENTRY records of open callers that record lost because the trace_off function was itself filtered out' are finding "
+        "F-C07-TRACEOFF-FLUSH (KNOWN-FINDING while listed open, VIOLATION otherwise; proposed_fixes/C07-TRACEOFF-FLUSH.diff). Other "
+        "differences follow from how the two times implement the switch and are counted (trace_on_off_other_differences), not "
+        "failed: (a) libmcount/mcount.c mcount_entry_filter_check() does filter.depth++ for every call, also while mcount_enabled is "
+        "false (the frame is only tagged DISABLED later), whereas utils/fstack.c fstack_entry() returns at `!fstack_enabled` before "
+        "`filter.depth--`, so calls entered while tracing is off use up the -D budget at record time only; (b) fstack_entry() "
+        "returns at a FILTER_MODE_OUT match before it looks at TRACE_ON/TRACE_OFF, mcount_entry_filter_check() applies them, so a "
+        "trace switch on a -N function works at record time only; (c) a frame entered while tracing was off is DISABLED for good "
+        "at record time (never written), while replay prints its EXIT once tracing is on again (fstack.c: 'don't set NORECORD "
+        "flag so that it can be printed when trace-on again'); doc/uftrace-record.md and uftrace-replay.md describe trace_on / "
+        "trace_off only as 'start / stop tracing' and do not define these combinations",
+        "record-vs-replay, -t boundary: finding S4 is repaired in /repo (both times keep a call that ran at least the threshold; "
+        "theorem c07_record_eq_replay holds for every threshold, c07_time_boundary_witness shows the old behaviour). -t values equal "
+        "to call durations are generated on purpose; a tree whose hooks behave like the pre-fix hook model (`>`) is reported as a "
+        "VIOLATION with the failing input (KNOWN-FINDING only if S4 is listed as open again)",
     ]
     ctx.notes += [
         "`uftrace graph -D n` synthesizes the trigger '_start@depth=n'; when the symbol table has no _start the filter setup is "
